@@ -23,3 +23,11 @@ more('decl.c', 'tagspec', 'error', "enumerator '%s' value cannot be represented 
      T('decl', 'enum e_ : long { A_ = 0xffffffffffffffffu };', "'A_'", gcc='C23 syntax implemented by cproc; gcc -std=c11 rejects the syntax itself for another reason (still rejected)'),
      T('decl', 'enum e_ : int { A_ = 18446744073709551488u };', "'A_'", gcc='C23 syntax implemented by cproc; gcc -std=c11 rejects the syntax itself for another reason (still rejected)'),
      T('decl', 'enum e_ : unsigned { A_ = -1 };', "'A_'", gcc='C23 syntax implemented by cproc; gcc -std=c11 rejects the syntax itself for another reason (still rejected)'))
+
+# /repo 7cbfad0, 9110e4f, f6f05dd: macro parameter names (6.10.3p5, p6) and the mixed-case long long suffix (6.4.4.1)
+site('pp.c', 'define', 'error', "duplicate macro parameter name '%s'",
+     T('pp', '#define M_(a, a) a', "'a'"), T('pp', '#define M_(a, b, c, b) a b c', "'b'"), T('pp', '#define M_(x, y, x, ...) y', "'x'"))
+site('pp.c', 'define', 'error', '__VA_ARGS__ cannot be used as a macro parameter name',
+     T('pp', '#define M_(__VA_ARGS__) 1'), T('pp', '#define M_(a, __VA_ARGS__) a'), T('pp', '#define M_(__VA_ARGS__, ...) 1'))
+more('expr.c', 'inttype', 'error', "invalid integer constant suffix '%s'",
+     T('expr', '1lL', "'lL'"), T('expr', '1Ll', "'Ll'"), T('expr', '0x1uLl', "'uLl'"), T('expr', '07lLU', "'lLU'"))
